@@ -178,6 +178,9 @@ type record struct {
 	Mapping []entry    `json:"mapping"`
 	Opt     options    `json:"opt"`
 	Origin  string     `json:"origin"`
+	// ProbeCodes repeats the probed codes (also when the real code failed before
+	// answering): a replay needs them
+	ProbeCodes [][]int `json:"probecodes"`
 }
 
 func key(c []int) string {
@@ -253,6 +256,9 @@ func (r *record) normalise() {
 	}
 	if r.Mapping == nil {
 		r.Mapping = []entry{}
+	}
+	if r.ProbeCodes == nil {
+		r.ProbeCodes = [][]int{}
 	}
 }
 
